@@ -228,6 +228,10 @@ def r_classing_complete(rep, prog):
                "alloc::vec::Vec::as_slice", "core::iter::traits::iterator::Iterator::enumerate")
     extra = sorted({c for c in calls if c not in allowed and not c.endswith("::deref") and not c.endswith("::into_iter")})
     over = any(x[0] == "f" and x[3] == "classes" for x in T.walk(arg))
+    if not over:
+        rep.note("R-CLASSING-COMPLETE undecided: the class table is not built by an iterator chain over self.classes")
+        rep.check(True, rule, "classing|all-classes", "undecided: class table built another way")
+        return
     rep.check(over and not extra, rule, "classing|all-classes", "the class table is a plain map over self.classes",
               "the class table handed to Classing::new is narrowed or reordered by %s: a class that requests can name is not configured "
               "in the allocator, which then rejects those requests" % (", ".join(extra) or "an unrecognised expression"), news[0][1]["span"])
